@@ -264,7 +264,9 @@ func errTag(err error) string {
 		return "other:length"
 	case strings.Contains(err.Error(), "unexpected auth_key_id"):
 		return "other:auth-key-id"
-	case strings.Contains(err.Error(), "decompress") || strings.Contains(err.Error(), "gzip error") || strings.Contains(err.Error(), "checksum"):
+	case strings.HasPrefix(err.Error(), "gzip error"):
+		return "other:gzip-header"
+	case strings.Contains(err.Error(), "decompress") || strings.Contains(err.Error(), "checksum"):
 		return "other:gzip"
 	}
 	return "other:" + err.Error()
@@ -339,10 +341,10 @@ const limit = 10 << 20
 
 // gunzRef runs the decompressor on its own: bytes delivered before the stream ends (counted up to
 // cap) and whether it ended cleanly.  This is the `gunz` primitive handed to the model.
-func gunzRef(compressed []byte, max int) (data []byte, n int, clean bool) {
+func gunzRef(compressed []byte, max int) (data []byte, n int, clean, hdrOK bool) {
 	r, err := gzip.NewReader(bytes.NewReader(compressed))
 	if err != nil {
-		return nil, 0, false
+		return nil, 0, false, false
 	}
 	var out bytes.Buffer
 	buf := make([]byte, 64<<10)
@@ -353,13 +355,13 @@ func gunzRef(compressed []byte, max int) (data []byte, n int, clean bool) {
 			out.Write(buf[:k])
 		}
 		if err == io.EOF {
-			return out.Bytes(), n, true
+			return out.Bytes(), n, true, true
 		}
 		if err != nil {
-			return out.Bytes(), n, false
+			return out.Bytes(), n, false, true
 		}
 		if n > max {
-			return out.Bytes(), n, false // cut: longer than anything the limit can tell apart
+			return out.Bytes(), n, false, true // cut: longer than anything the limit can tell apart
 		}
 	}
 }
@@ -734,7 +736,7 @@ func run(c *hc.Ctx) error {
 		rest := r.Bytes(hc.Pick(r, 0, 4, 8))
 		buf := append(append([]byte{}, b.Buf...), rest...)
 		out, g, left, pan := decGzip(buf)
-		ref, refN, clean := gunzRef(comp, limit+(1<<20))
+		ref, refN, clean, hdrOK := gunzRef(comp, limit+(1<<20))
 		c.Eval(line+" "+hc.Hex(comp[:min(len(comp), 24)]), true)
 		switch {
 		case pan != nil:
@@ -756,10 +758,10 @@ func run(c *hc.Ctx) error {
 			}
 		}
 		if small {
-			add(fmt.Sprintf("gzdec %s %d %v", hc.Hex(buf), refN, clean), out)
+			add(fmt.Sprintf("gzdec %s %d %v %v", hc.Hex(buf), refN, clean, hdrOK), out)
 		} else {
 			// only the frame header goes through the model: replace the payload by its length
-			add(fmt.Sprintf("gzlim %d %v", refN, clean), map[bool]string{true: "ok", false: out}[strings.HasPrefix(out, "ok")])
+			add(fmt.Sprintf("gzlim %d %v %v", refN, clean, hdrOK), map[bool]string{true: "ok", false: out}[strings.HasPrefix(out, "ok")])
 		}
 	}
 	// bombs: highly compressible streams far beyond the limit, built by streaming
@@ -790,8 +792,8 @@ func run(c *hc.Ctx) error {
 		case out != "err other:bomb":
 			c.Fail("gzip-limit", line, "a "+strconv.Itoa(sz)+"-byte bomb gave "+clip(out))
 		}
-		_, refN, clean := gunzRef(cb.Bytes(), limit+(1<<20))
-		add(fmt.Sprintf("gzdec %s %d %v", hc.Hex(b.Buf), refN, clean), out)
+		_, refN, clean, hdrOK := gunzRef(cb.Bytes(), limit+(1<<20))
+		add(fmt.Sprintf("gzdec %s %d %v %v", hc.Hex(b.Buf), refN, clean, hdrOK), out)
 	}
 	// corrupted / foreign streams and frames
 	nc := c.N(3000, 30000)
@@ -851,17 +853,17 @@ func run(c *hc.Ctx) error {
 		}
 		// what the decompressor does with the bytes the frame carries (if the frame parses)
 		fb := &bin.Buffer{Buf: append([]byte{}, data...)}
-		refN, clean := 0, false
+		refN, clean, hdrOK := 0, false, false
 		if fb.ConsumeID(proto.GZIPTypeID) == nil {
 			if cbuf, err := fb.Bytes(); err == nil {
 				var ref []byte
-				ref, refN, clean = gunzRef(cbuf, limit+(1<<20))
+				ref, refN, clean, hdrOK = gunzRef(cbuf, limit+(1<<20))
 				if strings.HasPrefix(out, "ok") && !bytes.Equal(ref, g.Data) {
 					c.Fail("gzip-data", line, "Decode returned data that differs from the stream's content")
 				}
 			}
 		}
-		add(fmt.Sprintf("%s %d %v", line, refN, clean), out)
+		add(fmt.Sprintf("%s %d %v %v", line, refN, clean, hdrOK), out)
 	}
 
 	// ---- 6. the generated mt types read the same frames (implementation cross-check)
@@ -885,6 +887,24 @@ func run(c *hc.Ctx) error {
 		}
 		c.Eval("mt "+hc.Hex(b.Buf), cnt > 0)
 		c.Count("mt.container")
+		// the mt twin's own encoder must produce the same bytes, and the model both
+		twin := mt.MsgContainer{}
+		var twinTxt []string
+		for j := range ms {
+			twin.Messages = append(twin.Messages, mt.Message{MsgID: ms[j].ID, Seqno: ms[j].SeqNo, Bytes: ms[j].Bytes, Body: mt.GzipPacked{PackedData: packs[j]}})
+			twinTxt = append(twinTxt, fmt.Sprintf("%d:%d:%d:%s", ms[j].ID, ms[j].SeqNo, ms[j].Bytes, hc.Hex(packs[j])))
+		}
+		var tb bin.Buffer
+		if err := twin.Encode(&tb); err != nil || !bytes.Equal(tb.Buf, b.Buf) {
+			c.Fail("mt-container", "mt "+hc.Hex(b.Buf), fmt.Sprintf("mt.MsgContainer.Encode of the twin differs from proto's bytes (err %v)", err))
+		}
+		tt := "-"
+		if len(twinTxt) > 0 {
+			tt = strings.Join(twinTxt, ";")
+		}
+		add("mtcenc "+tt, hc.Hex(tb.Buf))
+		tail := r.Bytes(hc.Pick(r, 0, 0, 4))
+		add("mtcdec "+hc.Hex(append(append([]byte{}, tb.Buf...), tail...)), "ok "+tt+" "+hc.Hex(tail))
 		var mc mt.MsgContainer
 		if err := mc.Decode(&bin.Buffer{Buf: append([]byte{}, b.Buf...)}); err != nil {
 			c.Fail("mt-container", "mt "+hc.Hex(b.Buf), "mt.MsgContainer cannot decode proto's container: "+err.Error())
@@ -905,7 +925,61 @@ func run(c *hc.Ctx) error {
 			if err := mr.Decode(&bin.Buffer{Buf: rb.Buf}); err != nil || mr.ReqMsgID != ms[0].ID || !bytes.Equal(mr.Result.PackedData, packs[0]) {
 				c.Fail("mt-result", "mt "+hc.Hex(rb.Buf), fmt.Sprintf("mt.RPCResult decoded %d (err %v)", mr.ReqMsgID, err))
 			}
+			var mb bin.Buffer
+			_ = (&mt.RPCResult{ReqMsgID: ms[0].ID, Result: mt.GzipPacked{PackedData: packs[0]}}).Encode(&mb)
+			add(fmt.Sprintf("mtrenc %d %s", ms[0].ID, hc.Hex(packs[0])), hc.Hex(mb.Buf))
+			add("mtrdec "+hc.Hex(rb.Buf), fmt.Sprintf("ok %d %s -", ms[0].ID, hc.Hex(packs[0])))
 		}
+	}
+
+	// ---- 6b. mt decoders on malformed / truncated input and announced counts
+	for i := 0; i < c.N(3000, 30000); i++ {
+		var b bin.Buffer
+		b.PutID(hc.Pick[uint32](r, mt.MsgContainerTypeID, mt.MsgContainerTypeID, mt.RPCResultTypeID, uint32(r.U64())))
+		cnt := hc.Pick(r, -1, 0, 1, 2, 1023, 1024, 1025, 1<<31-1, -(1 << 31), r.Range(0, 5000))
+		b.PutInt(cnt)
+		for j := r.Range(0, 2); j > 0; j-- {
+			b.PutLong(i64(r))
+			b.PutInt(r.Intn(100))
+			b.PutInt(r.Intn(100))
+			b.PutID(hc.Pick[uint32](r, mt.GzipPackedTypeID, mt.GzipPackedTypeID, mt.MessageTypeID))
+			b.PutBytes(r.Bytes(r.Range(0, 12)))
+		}
+		data := b.Buf
+		if r.Chance(40) {
+			data = data[:r.Intn(len(data)+1)]
+		}
+		var mc mt.MsgContainer
+		bb := &bin.Buffer{Buf: append([]byte{}, data...)}
+		out, pan := guard(func() string {
+			if err := mc.Decode(bb); err != nil {
+				return "err " + errTag(err)
+			}
+			var xs []string
+			for _, m := range mc.Messages {
+				xs = append(xs, fmt.Sprintf("%d:%d:%d:%s", m.MsgID, m.Seqno, m.Bytes, hc.Hex(m.Body.PackedData)))
+			}
+			t := "-"
+			if len(xs) > 0 {
+				t = strings.Join(xs, ";")
+			}
+			return "ok " + t + " " + hc.Hex(bb.Buf)
+		})
+		line := "mtcdec " + hc.Hex(data)
+		c.Eval(line, len(data) > 0)
+		c.Count("mt.malformed." + outClass(out))
+		if pan != nil {
+			c.Fail("panic:mt-container", line, fmt.Sprint(pan))
+		} else if cap(mc.Messages) > 1024+len(mc.Messages) {
+			c.Fail("mt-prealloc", line, fmt.Sprintf("capacity %d for %d decoded messages", cap(mc.Messages), len(mc.Messages)))
+		}
+		add(line, out)
+		add(fmt.Sprintf("mtprealloc %d", cnt), strconv.Itoa(func() int {
+			if cnt > 0 {
+				return cnt % bin.PreallocateLimit
+			}
+			return 0
+		}()))
 	}
 
 	c.Res.Rule = "containers: 0..12 (sometimes 30..80) messages with random ids/seqnos and bodies of 0..3000 bytes (aligned or not), periodically 2^19..2^20 bytes, 1/12 each: a body over 1 MiB, a negative length, a length field disagreeing with the body; every valid encoding is decoded with trailing bytes and at a random truncation (non-trivial = at least one message); malformed containers: wrong id, counts −2^31, −1, 0, 2^31−1 with short input, length fields 2^20, 2^20+1, negative, 2^31−1, random bytes; results and unencrypted messages the same way (bad auth_key_id, negative/oversized data length); gzip: random/compressible payloads up to 100 KB, payloads of 10 MiB−1, 10 MiB, 10 MiB+1, 15 MiB, a streamed 64 MiB (1 GiB in thorough) bomb, incompressible 1 MiB (10 MiB−1 and 10 MiB in thorough), bit-flipped / truncated / extended / foreign / double-member streams and cut frames; the generated mt.MsgContainer / mt.RPCResult / mt.GzipPacked must read proto's frames identically. distinct = distinct request line"
